@@ -831,7 +831,9 @@ def create_logger(id_, parameters, arg):
         file_name = 'samples.csv'
 
     parameters2 = list(filter(lambda x: 'tree.ratios' != x, parameters))
-    models = ['joint', 'like', 'prior']
+    models = ['joint', 'like']
+    if getattr(arg, '_has_prior', True):
+        models.append('prior')
     if arg.coalescent:
         models.append('coalescent')
         if arg.coalescent in COALESCENT_PIECEWISE:
@@ -862,7 +864,10 @@ def create_sampler(id_, var_id, parameters, arg):
         tree_file_name = 'samples.trees'
 
     parameters2 = list(filter(lambda x: 'tree.ratios' != x, parameters))
-    models = ['joint.jacobian', 'joint', 'like', 'prior', var_id]
+    models = ['joint.jacobian', 'joint', 'like']
+    if getattr(arg, '_has_prior', True):
+        models.append('prior')
+    models.append(var_id)
 
     if arg.location_regex:
         models.append('like.location')
